@@ -56,6 +56,51 @@ CLAIMED.update({
     ),
 })
 
+CLAIMED.update({
+    "C01": (
+        "property-based differential testing against a reference semantics: generated programs x HT interpretations; oracle = independent mini-gringo semantics (ground instances, partial division, intervals) vs exact HT evaluation of the tau* formulas; plus stable models vs equilibrium models on small universes",
+        "Exploration: per rule, (H,T) satisfies the tau* formula iff it satisfies every ground instance by the reference semantics, for generated programs with every head/body shape, operator nesting, fresh-name-colliding variables and arithmetic corner classes; the consequence (stable = equilibrium models with extra facts) is checked exhaustively over all candidate J and all H below J for small universes.",
+        "Trusted: reference semantics (floor division for positive divisors, as tau_star.rs documents), exact evaluator; finite extents; definite verdicts only.",
+        "4/C01",
+    ),
+    "C03": (
+        "property-based differential testing: generated program pairs x flags x (H,T) incl. H not subset of T; oracle = reference HT satisfaction of both programs vs exact classical evaluation of every emitted problem (hooked syntax trees) in I_(H,T)",
+        "Exploration: an interpretation of the h-/t-copies refutes an emitted forward/backward problem iff H subset-of T and (H,T) satisfies one program but not the other, over all flag combinations and both formula representations; unrequested directions must be absent.",
+        "Trusted: reference semantics, exact evaluator; identifiers chosen so that symbol renaming does not interfere (C09/C12 cover renaming).",
+        "4/C03",
+    ),
+    "C04": (
+        "property-based differential testing: tight generated programs x input sets x interpretations guided by reference stable models (and one-atom perturbations); oracle = reference stable-model test vs exact classical evaluation of the completion; mutation-based refusal test",
+        "Exploration: J satisfies completion(tau*(P), inputs) iff J is a stable model of P with J's input facts; one completed definition per non-input predicate (also never-defined ones), none for inputs; theories with exactly one injected listed defect are refused, unmutated tau* theories never.",
+        "Trusted: reference stable-model computation (reduct least model, cross-checked against the definition), exact evaluator.",
+        "4/C04",
+    ),
+    "C08": (
+        "property-based equivalence testing: generated regular/irregular rules x HT interpretations with non-integers at every position; oracle = exact HT evaluation of natural/mu formula vs tau* formula (and vs the reference semantics)",
+        "Exploration: every formula of mu() and, for accepted rules, of natural() has the tau* formula's truth value in every generated (H,T); an integer-sorted variable that excludes a satisfying non-integer value would show as a mismatch.",
+        "Trusted: exact evaluator, reference semantics.",
+        "4/C08",
+    ),
+    "C09": (
+        "property-based testing with a strict independent TFF reader and type checker as oracle over every problem of generated strong/external tasks x flags; known-finding shapes in a separate tolerated campaign",
+        "Exploration: each emitted problem must be valid typed TFF: words, unique names, one declaration and type per identifier, declared before use, typed quantifiers, one conjecture. Tricky-but-handled identifier shapes are in the main campaign; the recorded name-mangling defects are confirmed on recorded inputs and tolerated by narrow signature only.",
+        "Trusted: the checker's TFF reader/type checker (syntax acceptance cross-checked against tptp4X).",
+        "4/C09",
+    ),
+    "C11": (
+        "property-based differential testing: generated programs; oracle = independent dependency-graph acyclicity and an independent implementation of the documented regularity definition; tasks with exactly one broken precondition must be refused with nothing emitted",
+        "Exploration: is_tight/is_regular (and the analyze command on a sample) agree with independent implementations on programs with equal names at different arities, all signs, choice heads, long cycles; every task with one precondition broken by construction is refused and valid controls are accepted.",
+        "Trusted: the documented definitions (analyze.md; unary minus read as 0 - t).",
+        "4/C11",
+    ),
+    "C12": (
+        "property-based testing: auto-generated axioms of every problem of generated tasks are read by the strict TFF reader and evaluated under the standard interpretation (windows for quantifiers); chain structure of ordering axioms checked exactly",
+        "Exploration: ordering axioms mention exactly the declared symbolic constants, form one chain and are true when each constant is read as the input symbol it stands for; transition axioms are true in every generated I_(H,T) and cover every predicate; the preamble is evaluated on windows around generated integers (incl. 64-bit limits) and symbols.",
+        "Trusted: standard reading of the preamble symbols; window sampling as the property states.",
+        "4/C12",
+    ),
+})
+
 NOT_YET = {}
 
 def main():
